@@ -588,6 +588,10 @@ func BuildBinaryResultset(fields []*Field, values [][]interface{}) (*Resultset, 
 				continue
 			}
 
+			if !integerFitsColumn(r.Fields[j], rowVal) {
+				return nil, fmt.Errorf("row %d column %d: %v is out of range for field type %d", i, j, rowVal, r.Fields[j].Type)
+			}
+
 			var err error
 			row, err = AppendBinaryValue(row, r.Fields[j].Type, rowVal)
 			if err != nil {
@@ -599,6 +603,65 @@ func BuildBinaryResultset(fields []*Field, values [][]interface{}) (*Resultset, 
 	}
 
 	return r, nil
+}
+
+// integerFitsColumn tells whether an integer value is a value of the integer
+// column it is sent in (width of the binary encoding and signedness): only the
+// low bytes of the value travel, a client reads them by the column's type and
+// UNSIGNED flag. Values and columns that are not integers are not checked here.
+func integerFitsColumn(field *Field, value interface{}) bool {
+	var bits uint
+	switch field.Type {
+	case TypeTiny:
+		bits = 8
+	case TypeShort, TypeYear:
+		bits = 16
+	case TypeLong, TypeInt24:
+		bits = 32
+	case TypeLonglong:
+		bits = 64
+	default:
+		return true
+	}
+	unsigned := field.Flag&uint16(UnsignedFlag) > 0
+
+	var sv int64
+	var uv uint64
+	var isSigned bool
+	switch v := value.(type) {
+	case int8:
+		sv, isSigned = int64(v), true
+	case int16:
+		sv, isSigned = int64(v), true
+	case int32:
+		sv, isSigned = int64(v), true
+	case int64:
+		sv, isSigned = v, true
+	case int:
+		sv, isSigned = int64(v), true
+	case uint8:
+		uv = uint64(v)
+	case uint16:
+		uv = uint64(v)
+	case uint32:
+		uv = uint64(v)
+	case uint64:
+		uv = v
+	case uint:
+		uv = uint64(v)
+	default:
+		return true
+	}
+	if isSigned {
+		if sv < 0 {
+			return !unsigned && sv >= -1<<(bits-1)
+		}
+		uv = uint64(sv)
+	}
+	if unsigned {
+		return bits == 64 || uv < 1<<bits
+	}
+	return uv < 1<<(bits-1)
 }
 
 // formatField encode field according to type of value if necessary
